@@ -138,11 +138,33 @@ pub fn convert<O: Model, N: Model>(o: &O, new_desc_json: &str) -> N {
 }
 
 /// Projects the serde JSON of a real `savefile::Schema` onto the uniform schema node of spec/Schema.tla
-/// [k, s, n, ts, sz, al, off, lay, er].  Purely syntactic.
+/// [k, s, n, ts, sz, al, off, lay, er, nm].  Purely syntactic.
 pub fn schema_node(v: &serde_json::Value) -> serde_json::Value {
     use serde_json::{json, Value};
     fn node(k: &str, s: &str, n: i64, ts: Vec<Value>) -> Value {
-        json!({"k": k, "s": s, "n": n, "ts": ts, "sz": -1, "al": -1, "off": -1, "lay": "", "er": false})
+        json!({"k": k, "s": s, "n": n, "ts": ts, "sz": -1, "al": -1, "off": -1, "lay": "", "er": false, "nm": ""})
+    }
+    // AbiTraitDefinition -> "traitdef" node (s = name, n = sync + 2 send, ts = "method" nodes)
+    fn traitdef(d: &Value) -> Value {
+        let methods = d["methods"]
+            .as_array()
+            .unwrap()
+            .iter()
+            .map(|m| {
+                let info = &m["info"];
+                let rc = match info["receiver"].as_str().unwrap_or("Shared") {
+                    "Shared" => 0,
+                    "Mut" => 1,
+                    _ => 2,
+                };
+                let asy = if info["async_trait_heuristic"].as_bool().unwrap_or(false) { 4 } else { 0 };
+                let mut ts = vec![schema_node(&info["return_value"])];
+                ts.extend(info["arguments"].as_array().unwrap().iter().map(|a| schema_node(&a["schema"])));
+                node("method", m["name"].as_str().unwrap(), rc + asy, ts)
+            })
+            .collect();
+        let fl = (if d["sync"].as_bool().unwrap() { 1 } else { 0 }) + (if d["send"].as_bool().unwrap() { 2 } else { 0 });
+        node("traitdef", d["name"].as_str().unwrap(), fl, methods)
     }
     fn opt(v: &Value) -> i64 {
         v.as_i64().unwrap_or(-1)
@@ -154,6 +176,7 @@ pub fn schema_node(v: &serde_json::Value) -> serde_json::Value {
             .map(|f| {
                 let mut n = schema_node(&f["value"]);
                 n["off"] = json!(opt(&f["offset"]));
+                n["nm"] = json!(f["name"].as_str().unwrap_or(""));
                 n
             })
             .collect()
@@ -164,7 +187,7 @@ pub fn schema_node(v: &serde_json::Value) -> serde_json::Value {
             "ZeroSize" => node("zero", "", 0, vec![]),
             "Str" => node("str", "", 0, vec![]),
             "StdIoError" => node("ioerror", "", 0, vec![]),
-            "UninitSlice" => node("other", "UninitSlice", 0, vec![]),
+            "UninitSlice" => node("uninit", "", 0, vec![]),
             "UtcTimestamp" => node("utc", "", 0, vec![]),
             other => node("other", other, 0, vec![]),
         },
@@ -212,9 +235,52 @@ pub fn schema_node(v: &serde_json::Value) -> serde_json::Value {
                 "Slice" => node("slice", "", 0, vec![schema_node(body)]),
                 "Reference" => node("ref", "", 0, vec![schema_node(body)]),
                 "Recursion" => node("recursion", "", body.as_i64().unwrap_or(0), vec![]),
+                "Trait" => node("trait", "", if body[0].as_bool().unwrap() { 1 } else { 0 }, vec![traitdef(&body[1])]),
+                "FnClosure" => node("fnclosure", "", if body[0].as_bool().unwrap() { 1 } else { 0 }, vec![traitdef(&body[1])]),
+                "Future" => {
+                    let b = |i: usize| if body[i].as_bool().unwrap() { 1i64 } else { 0 };
+                    node("future", "", b(1) + 2 * b(2) + 4 * b(3), vec![traitdef(&body[0])])
+                }
                 other => node("other", other, 0, vec![]),
             }
         }
         _ => node("other", "?", 0, vec![]),
     }
 }
+
+/// runs f in a forked child and returns its JSON result; a child killed by a signal yields a "died" observation
+pub fn in_child(f: impl FnOnce() -> serde_json::Value) -> serde_json::Value {
+    use std::io::Read;
+    use std::os::unix::io::FromRawFd;
+    unsafe {
+        let mut fds = [0i32; 2];
+        if libc::pipe(fds.as_mut_ptr()) != 0 {
+            return f();
+        }
+        let pid = libc::fork();
+        if pid == 0 {
+            libc::close(fds[0]);
+            let devnull = libc::open(b"/dev/null\0".as_ptr() as *const libc::c_char, libc::O_WRONLY);
+            libc::dup2(devnull, 2);
+            let v = f();
+            let s = serde_json::to_vec(&v).unwrap();
+            let mut w = std::fs::File::from_raw_fd(fds[1]);
+            let _ = std::io::Write::write_all(&mut w, &s);
+            drop(w);
+            libc::_exit(0);
+        }
+        libc::close(fds[1]);
+        let mut r = std::fs::File::from_raw_fd(fds[0]);
+        let mut buf = Vec::new();
+        let _ = r.read_to_end(&mut buf);
+        let mut status = 0i32;
+        libc::waitpid(pid, &mut status, 0);
+        if libc::WIFSIGNALED(status) || buf.is_empty() {
+            let sig = if libc::WIFSIGNALED(status) { libc::WTERMSIG(status) } else { 0 };
+            // SIGABRT after a failed allocation is what std's handle_alloc_error does
+            return serde_json::json!({"real": "died", "msg": format!("child killed by signal {}", sig), "rpos": 0, "reser": [], "oom": sig == libc::SIGABRT});
+        }
+        serde_json::from_slice(&buf).unwrap_or(serde_json::json!({"real": "died", "msg": "unreadable child result", "rpos": 0, "reser": [], "oom": false}))
+    }
+}
+
